@@ -45,7 +45,7 @@ def run(prop, tier, cfg):
         if err:
             out['undecided'].append('kani: ' + err)
             return out
-        env = dict(os.environ, CARGO_NET_OFFLINE='true', CARGO_TARGET_DIR=os.path.join(VERIF, 'build', 'kani_target'))
+        env = dict(os.environ, CARGO_NET_OFFLINE='true', CARGO_TARGET_DIR=os.path.join(VERIF if os.path.isdir(os.path.join(VERIF, 'build')) else '/verif', 'build', 'kani_target'))
         for h in cfg['harnesses']:
             if h.get('tier', 'quick') == 'thorough' and tier != 'thorough':
                 continue
